@@ -558,11 +558,19 @@ func (p *prov) accessorN(f *ssa.Function, args []string, idx int, d int) (string
 	if strings.Contains(t, "φ") || strings.Contains(t, "free(") {
 		return "", false
 	}
-	// substitute the parameter tokens by the argument terms (one pass, so an argument term is never rewritten)
+	return substParams(t, f, args), true
+}
+
+// substParams replaces the parameter tokens of f in the term t by the argument terms (one pass, so an argument term is
+// never rewritten).
+func substParams(t string, f *ssa.Function, args []string) string {
 	var b strings.Builder
 	for i := 0; i < len(t); {
 		matched := false
 		for k, prm := range f.Params {
+			if k >= len(args) {
+				break
+			}
 			tok := "param(" + prm.Name() + ")"
 			if k == 0 && f.Signature.Recv() != nil {
 				tok = "recv"
@@ -585,8 +593,56 @@ func (p *prov) accessorN(f *ssa.Function, args []string, idx int, d int) (string
 			i++
 		}
 	}
-	return b.String(), true
+	return b.String()
 }
+
+// successValueOf: v is result idx of a plain call of a module helper that returns (..., error): the term of what the
+// helper returns at idx on the paths on which its error result is nil, in the caller's terms — "" if the paths disagree
+// or v is not of that form. (`offset, err := s.offsetOf(vbID)` denotes what offsetOf returns when it succeeds.)
+func (w *World) successValueOf(v ssa.Value) string {
+	ex, ok := unwrap(v).(*ssa.Extract)
+	if !ok {
+		return ""
+	}
+	call, ok := ex.Tuple.(*ssa.Call)
+	if !ok {
+		return ""
+	}
+	h := call.Common().StaticCallee()
+	if h == nil || h.Blocks == nil || !w.inModule(h) || call.Common().IsInvoke() {
+		return ""
+	}
+	res := h.Signature.Results()
+	if res.Len() < 2 || !types.Identical(res.At(res.Len()-1).Type(), types.Universe.Lookup("error").Type()) || ex.Index >= res.Len()-1 {
+		return ""
+	}
+	term := ""
+	okAll := true
+	allInstrs(h, func(in ssa.Instruction) {
+		r, isR := in.(*ssa.Return)
+		if !isR || len(r.Results) != res.Len() {
+			return
+		}
+		if !isNilConst(r.Results[len(r.Results)-1]) {
+			return // a failing path
+		}
+		t := w.Origin(r.Results[ex.Index])
+		if term == "" {
+			term = t
+		} else if term != t {
+			okAll = false
+		}
+	})
+	if !okAll || term == "" || strings.Contains(term, "φ") {
+		return ""
+	}
+	var args []string
+	for _, a := range call.Common().Args {
+		args = append(args, w.Origin(a))
+	}
+	return substParams(term, h, args)
+}
+
 
 // forwardingBody: f is a module-local function whose single block only loads, selects fields, converts and makes
 // static calls, and returns one value — a pure accessor or a thin forwarding wrapper. Returns the return instruction.
